@@ -6,7 +6,7 @@ PROPS="${@:-C01 C02 C03 C04 C05 C06 C07 C08 C09 C10 C11 C12 C13 C14 C15 C16 C17 
 cd /verif
 for p in $PROPS; do
   [ -f hgv/props/${p,,}.py ] || continue
-  out=$(HGV_PATCH="$P" HGV_EVIDENCE_DIR=/tmp/hgv_try_evidence python3-vt -m hgv check $p 2>&1 | grep -v WARNING)
+  out=$(HGV_PATCH="$P" HGV_EVIDENCE_DIR=/tmp/hgv_try_evidence_$$ python3-vt -m hgv check $p 2>&1 | grep -v WARNING)
   nviol=$(echo "$out" | grep -c "^VIOLATION")
   nerr=$(echo "$out" | grep -c "^ANALYSIS-ERROR")
   if [ "$nviol" != "0" ] || [ "$nerr" != "0" ]; then
